@@ -103,6 +103,24 @@ def axis_ok(ax, o):
     return 0 < o < len(ax) - 1 and ax[o] == 0.0 and all(a < b for a, b in zip(ax, ax[1:]))
 
 
+def wellformed_or_skip(ctx, d, cls, axes, o, levels, h, sym, stream):
+    """`creditAxis_wellFormed` (C13) proves the asymmetric axis well formed for l < a < -h < 0 < h < r, and the symmetric one
+    when additionally -a + eps < r.  Inside those hypotheses an ill-formed axis is a failure; outside them (mirrored block
+    does not fit below r: C13's documented limitation of the symmetric grid) the case is skipped."""
+    if all(axis_ok(ax, o) for ax in axes) and len({len(ax) for ax in axes}) == 1:
+        return True
+    if sym:
+        for ax, a in zip(axes, levels):
+            l, r = ax[0], ax[-1]
+            eps = min(abs(l - a) / 2, abs(a + h) / 2)
+            if not (-a + eps < r):
+                ctx.branches[f"c19.{stream}:skipped_symmetric_block_beyond_r(C13)"] += 1
+                return False
+    ctx.fail("oracle", "c19.credit.wellformed", d, {"what": "credit axis not strictly increasing / origin not at index 4 although "
+                                                  "l < a < -h < 0 < h < r", "axes": axes, "origin": o}, cls=cls)
+    return False
+
+
 def credit_axis_check(ctx, d, cls, g, axes, levels, sym, corr):
     """threshold exactly on the boundary between the 2nd and 3rd cell (S), axis = M's creditAxis (C)"""
     for i, (ax, a) in enumerate(zip(axes, levels)):
@@ -148,8 +166,7 @@ def _chain1d(ctx, d, cls, corr):
     axes = zoo.axis_list(g)
     ax = axes[0]
     o = int(list(g.origin_coordinate)[0])
-    if not axis_ok(ax, o):
-        ctx.branches["c19.chain1d:skipped_not_wellformed(C13)"] += 1
+    if not wellformed_or_skip(ctx, d, cls, axes, o, [a], h, False, "chain1d"):
         return
     l, r = float(g.truncations[0][0]), float(g.truncations[0][1])
     nu = model.levy_triplet.nu
@@ -170,11 +187,12 @@ def _chain1d(ctx, d, cls, corr):
     tol = REL * max(lam, th_full, 1e-300)
     ctx.count("c19.chain1d", d, nontrivial=th_clip > 1e-9 * lam, branch=f"{d['family']}:{'exp' if d['exp'] else 'levy'}")
     ctx.branches[f"c19.chain1d:{'nontrivial' if th_clip > 1e-9 * lam else 'negligible_theta'}"] += 1
-    if not credit_axis_check(ctx, d, cls, g, axes, [a], False, corr):
-        return
     if not abs(region - th_clip) <= tol:
         ctx.fail("oracle", "c19.region_rate_eq_theta", d, {"dim": 1, "region_rate": region, "theta_clipped": th_clip,
                                                          "intensity": lam, "axis": ax}, cls=cls)
+        credit_axis_check(ctx, d, cls, g, axes, [a], False, False)
+        return
+    if not credit_axis_check(ctx, d, cls, g, axes, [a], False, corr):
         return
     if not abs(th_trunc - th_clip) <= tol:
         ctx.fail("oracle", "c19.theta_truncated_1d", d, {"_theta(truncated model)": th_trunc, "nu[l,a]": th_clip,
@@ -266,8 +284,7 @@ def _chainnd(ctx, d, cls, corr):
         raise
     axes = zoo.axis_list(g)
     o = int(list(g.origin_coordinate)[0])
-    if not (all(axis_ok(ax, o) for ax in axes) and len({len(ax) for ax in axes}) == 1):
-        ctx.branches[f"c19.chainNd:skipped_not_wellformed(C13):sym={sym}"] += 1
+    if not wellformed_or_skip(ctx, d, cls, axes, o, levels, h, sym, "chainNd"):
         return
     n = len(axes[0])
     # the chain's model: first lines of MarkovChainLevyCopula.__init__ (markovchainlevycopula.py:90-91)
@@ -306,11 +323,12 @@ def _chainnd(ctx, d, cls, corr):
     ctx.count("c19.chainNd", d, nontrivial=nontrivial, branch=f"d{dim}:{d['copula']}:{'sym' if sym else 'asym'}")
     ctx.branches[f"c19.chainNd:d{dim}"] += 1
     ctx.branches[f"c19.chainNd:d{dim}:{'nontrivial' if nontrivial else 'negligible_theta_or_pair_terms'}"] += 1
-    if not credit_axis_check(ctx, d, cls, g, axes, levels, sym, corr):
-        return
     if not abs(region - th_clip) <= tol:
         ctx.fail("oracle", "c19.region_rate_eq_theta", d, {"dim": dim, "region_rate": region, "theta_clipped": th_clip,
                                                          "intensity": lam, "clipped_terms": clip_parts, "axes": axes}, cls=cls)
+        credit_axis_check(ctx, d, cls, g, axes, levels, sym, False)
+        return
+    if not credit_axis_check(ctx, d, cls, g, axes, levels, sym, corr):
         return
     if not abs(th_full - th_mass) <= tol:
         ctx.fail("oracle", "c19.theta_is_mass_of_union", d, {"dim": dim, "_theta(untruncated)": th_full,
@@ -351,6 +369,46 @@ def _chainnd(ctx, d, cls, corr):
         if out2.startswith("err") or not close(th_clip, rd(out2), scale=fr(sum(abs(x) for x in bvals) or 1.0)):
             ctx.fail("corr", "c19.clipped.model", d, {"name": "Drivers/C19 thetaClipped vs inclusion-exclusion of model.mass",
                                                      "impl": th_clip, "model": out2, "boxes": boxes, "values": bvals}, cls=cls)
+
+
+def theta_probe(ctx, d, corr=True):
+    cls = dict(stream="theta", dim=len(d["a"]), copula=d["copula"])
+    guarded(ctx, "c19.theta", d, cls, _theta, ctx, d, cls, corr)
+
+
+def _theta(ctx, d, cls, corr):
+    """the closed form alone (no grid): `_theta` = mass of the union of the half-spaces by inclusion-exclusion of
+    `model.mass`, increasing in each threshold; C: M's thetaCopula on the implementation's ingredients"""
+    levels = list(d["a"])
+    dim = len(levels)
+    _, cm = make_cm(d)
+    cf = CFLevyCopulaModel(cm)
+    th = float(cf._theta(levels))
+    th_mass, parts = incl_excl(dim, lambda I: cm.mass(tuple([-INF] * dim),
+                                                        tuple(levels[i] if i in I else INF for i in range(dim))))
+    scale = max(sum(abs(x) for x in parts), 1e-300)
+    top = max(parts[dim:])
+    ctx.count("c19.theta", d, nontrivial=top > 1e-9 * th, branch=f"d{dim}:{d['copula']}")
+    ctx.branches[f"c19.theta:d{dim}:{'nontrivial' if parts[-1] > 1e-9 * th else 'negligible_top_term'}"] += 1
+    if not abs(th - th_mass) <= REL * scale:
+        ctx.fail("oracle", "c19.theta_is_mass_of_union", d, {"dim": dim, "_theta(untruncated)": th,
+                                                           "incl_excl of model.mass over the half-spaces": th_mass,
+                                                           "terms": parts}, cls=cls)
+        return
+    if not (max(parts[:dim]) - REL * scale <= th <= sum(parts[:dim]) + REL * scale):
+        ctx.fail("oracle", "c19.theta_is_mass_of_union", d, {"dim": dim, "what": "theta outside [max_i nu_i, sum_i nu_i]",
+                                                           "_theta": th, "marginal masses": parts[:dim]}, cls=cls)
+        return
+    for i in range(dim):
+        up = list(levels)
+        up[i] = min(levels[i] + d["delta"], -1e-3)
+        th_up = float(cf._theta(up))
+        if th_up < th - REL * scale:
+            ctx.fail("oracle", "c19.theta_monotone", d, {"dim": dim, "levels": levels, "raised": up, "theta": th,
+                                                       "theta_raised": th_up}, cls=cls)
+            return
+    if corr:
+        theta_corr(ctx, d, cls, cm, levels, "untruncated model")
 
 
 def _parse_boxes(tok):
@@ -664,10 +722,17 @@ def case_payoff(rng):
     return dict(R=round(rng.uniform(0, 0.8), 3), s=round(rng.uniform(-0.01, 0.2), 5), r=round(rng.uniform(0.005, 0.08), 4), T=T, tau=tau)
 
 
-PROBES = {"c19.chain1d": chain1d_probe, "c19.chainNd": chainnd_probe, "c19.spreads": spreads_probe,
+def case_theta(rng):
+    dim = rng.choice([2, 3, 3])
+    nd = case_nd(rng, dim)
+    return dict(margins=nd["margins"], copula=nd["copula"], copula_kw=nd["copula_kw"], a=nd["a"], exp=nd["exp"],
+                delta=rng.choice([0.1, 0.01, 1e-4]))
+
+
+PROBES = {"c19.theta": theta_probe, "c19.chain1d": chain1d_probe, "c19.chainNd": chainnd_probe, "c19.spreads": spreads_probe,
           "c19.deftimes": deftimes_probe, "c19.payoff": payoff_probe, "c19.guards": guards_probe}
 # every failure a probe can raise is replayed by the probe that owns the stream
-OWNER = {"1d": "c19.chain1d", "nd": "c19.chainNd", "spreads": "c19.spreads", "deftimes": "c19.deftimes", "payoff": "c19.payoff",
+OWNER = {"theta": "c19.theta", "1d": "c19.chain1d", "nd": "c19.chainNd", "spreads": "c19.spreads", "deftimes": "c19.deftimes", "payoff": "c19.payoff",
          "guards": "c19.guards"}
 
 
@@ -681,6 +746,8 @@ def run(ctx, corr=True):
     while ctx.branches["c19.chainNd:d3"] < want3 and tries < 3 * want3:
         chainnd_probe(ctx, case_nd(rng, 3), corr)
         tries += 1
+    for _ in range(ctx.n(150, 2500)):
+        theta_probe(ctx, case_theta(rng), corr)
     for _ in range(ctx.n(100, 1200)):
         spreads_probe(ctx, case_spreads(rng, "1d"), corr)
     for _ in range(ctx.n(40, 500)):
